@@ -4,9 +4,10 @@ CONSTANTS
   MaxProd = 2  MaxTables = 2  MaxDepth = 2
   OpenKinds = {"PowerRes"}  DeclKindsOn = {"Event"}
   Forms = {"abs", "caret"}
+  FieldKinds = {"Field", "IndexField", "BankField"}
   ScopeOn = TRUE  FieldOn = FALSE  MethodFlags = {1}  StmtKinds = {"call1"}  MaxStmts = 1
   Widths = {}
-  Excluded = {"D1", "D1b", "D2", "D2c", "D3", "D5", "D7", "D8", "D9"}
+  Excluded = {"D1", "D1b", "D2", "D2c", "D3", "D5", "D7", "D8", "D9", "D10", "D11"}
   Emit = TRUE  Bug = ""
 INIT Init
 NEXT Next
